@@ -293,23 +293,27 @@ class UTPM(Ring, RawAlgorithmsMixIn):
             raise NotImplementedError('I\'m not sure if this makes sense')
 
         ybar, dummy, xbar = out
-        # print 'xbar =', xbar
-        # print 'ybar =', ybar
+        # the adjoint of the overwritten entries moves to the right hand side.  It is taken out of ybar
+        # BEFORE it is accumulated into xbar: for y[1:] = y[:-1] xbar is a view of ybar itself
+        tmp_data = ybar[sl].data.copy()
+        ybar[sl].data[...] = 0.
         if isinstance(xbar, cls):
             # a constant right hand side (scalar, ndarray) has no adjoint to accumulate into
-            tmp = ybar[sl]
-            if tmp.data.shape != xbar.data.shape:
-                # x has been broadcast to the shape of y[sl]: sum over the broadcast axes
-                tmp_data = tmp.data
-                ndiff = tmp_data.ndim - xbar.data.ndim
+            xs = xbar.data.shape[2:]
+            ts = tmp_data.shape[2:]
+            if ts != xs:
+                # x has been broadcast to the shape of y[sl] (numpy aligns the trailing axes):
+                # sum over the broadcast axes, keep leading axes of length one of x
+                ndiff = len(ts) - len(xs)
                 if ndiff > 0:
                     tmp_data = tmp_data.sum(axis = tuple(range(2, 2 + ndiff)))
-                axes = tuple(i for i in range(2, tmp_data.ndim) if xbar.data.shape[i] == 1 and tmp_data.shape[i] != 1)
+                elif ndiff < 0:
+                    tmp_data = tmp_data.reshape(tmp_data.shape[:2] + (1,)*(-ndiff) + ts)
+                ts = tmp_data.shape[2:]
+                axes = tuple(2 + i for i in range(len(xs)) if xs[i] == 1 and ts[i] != 1)
                 if len(axes) > 0:
                     tmp_data = tmp_data.sum(axis = axes, keepdims = True)
-                tmp = cls(tmp_data)
-            xbar += tmp
-        ybar[sl].data[...] = 0.
+            xbar += cls(tmp_data)
         # print 'funcargs=',funcargs
         # print y[funcargs[0]]
 
